@@ -10,6 +10,7 @@
 -/
 import XotModel.Model.FspecSpec
 import XotModel.Model.FspecSpec2
+import XotModel.Model.FspecSpec3
 import XotModel.Driver.Forest
 
 namespace XotModel.Driver
@@ -93,8 +94,42 @@ def specOf (s : FState) (ws : List String) (resident : Bool) : Option (Forest ×
       some (specTextContentSet n t f, (f.textContentSet n t).1)
   | _ => none
 
+/-- The PAIR reading (`Model/FspecSpec3.lean`): defined for every forest, also one that already
+    holds adjacent text nodes. -/
+def specPOf (s : FState) (ws : List String) : Option (Forest × Forest × Bool) :=
+  let node (w : String) : Option Nat := do s.handleOf (← w.toNat?)
+  let f := s.forest
+  match ws with
+  | ["append", a, b] => do
+      let p ← node a; let c ← node b
+      some (specMoveP (.lastChildOf p) c f, (f.append p c).1, selfMerge f (.lastChildOf p) c)
+  | ["prepend", a, b] => do
+      let p ← node a; let c ← node b
+      some (specMoveP (.firstNormalChildOf p) c f, (f.prepend p c).1, false)
+  | ["insert_after", a, b] => do
+      let r ← node a; let c ← node b
+      some (specMoveP (.after r) c f, (f.insertAfter r c).1, false)
+  | ["insert_before", a, b] => do
+      let r ← node a; let c ← node b
+      some (specMoveP (.before r) c f, (f.insertBefore r c).1, selfMerge f (.before r) c)
+  | ["remove", a] => do
+      let n ← node a
+      some (specRemoveP n f, (f.remove n).1, false)
+  | ["detach", a] => do
+      let n ← node a
+      some (specDetachP n f, (f.detach n).1, false)
+  | _ => none
+
 def handleFspec (s : FState) (ws : List String) : Option String :=
   match ws with
+  -- at the recorded defect (`selfMerge`) the model's own result is shown instead of the
+  -- specification's: the deviation is reported by the harness oracle on the implementation
+  | "specp" :: rest => do
+      let (sp, md, dfct) ← specPOf s rest
+      some (contentDump s (if dfct then md else sp))
+  | "specpx" :: rest => do
+      let (sp, md, dfct) ← specPOf s rest
+      some (if dfct || rawDump sp == rawDump md then "1" else "0")
   | "spec" :: rest => do
       let (sp, _) ← specOf s rest false
       some (contentDump s sp)
